@@ -934,6 +934,12 @@ Proof.
   eapply TInv_le; [eapply srv_sx_le; eauto|auto].
 Qed.
 
+Theorem C10_token_invariant_step_proof : forall h e s i phi,
+  Inv s phi -> TInv s -> TInv (fst (srv_step h e s i)).
+Proof.
+  intros h e s i phi I T. destruct (srv_step h e s i) as [s' o] eqn:S. exact (srv_step_T _ _ _ _ _ _ _ S I T).
+Qed.
+
 Lemma srv_run_T h e is : forall s s' o phi,
   srv_run h e s is = (s', o) -> Inv s phi -> TInv s -> TInv s'.
 Proof.
